@@ -123,8 +123,11 @@ def gen_case(rng, tier, kind=None, N=None, nc=None):
         # how the bag is built: partitions may reach the tasks as lists or as lazy single-pass
         # iterators (concatenation of mapped bags, generator partitions). ISV/JFA take len() of
         # every partition and refuse iterators, so only the i-vector trainer is given them.
-        "bagform": (rng.choice(["plain", "plain", "concat_mapped", "generator", "mapped"])
-                    if kind == "ivector" else "plain"),
+        "stats_layout": rng.choice([None, None, None, "fortran", "stacked", "strided"]),
+        "bagform": (rng.choice(["plain", "plain", "concat_mapped", "generator", "mapped",
+                                "from_delayed", "repartitioned", "filtered"])
+                    if kind == "ivector" else
+                    rng.choice(["plain", "plain", "plain", "from_delayed", "repartitioned"])),
         "cfg": {"rU": tail(rng, 1, 3, [5, 9], 0.04), "rV": tail(rng, 1, 2, [5, 9], 0.04),
                 "it": tail(rng, 1, 3, [6], 0.03),
                 "rf": rng.choice([4.0, 1.0, 10.0]), "rs": rng.randint(0, 1000),
@@ -249,11 +252,31 @@ def _mk_stats(case):
     c = case["ubm"]["c"]
     d = len(case["ubm"]["means"][0])
     out = []
-    for sd in case["stats"]:
+    lay = case.get("stats_layout")
+    N = len(case["stats"])
+    if lay == "stacked":
+        # all utterances' sums live in one (features, gaussians, utterances) buffer, each
+        # statistic holds a transposed view of its slice
+        buf_x = np.zeros((d, c, N))
+        buf_xx = np.zeros((d, c, N))
+        buf_n = np.zeros((c, N))
+    for j, sd in enumerate(case["stats"]):
         st = GMMStats(c, d)
         st.n = A(sd["n"])
         st.sum_px = A(sd["sum_px"])
         st.sum_pxx = A(sd["sum_pxx"])
+        if lay == "fortran":
+            st.sum_px = np.asfortranarray(st.sum_px)
+            st.sum_pxx = np.asfortranarray(st.sum_pxx)
+        elif lay == "stacked":
+            buf_x[:, :, j] = st.sum_px.T
+            buf_xx[:, :, j] = st.sum_pxx.T
+            buf_n[:, j] = st.n
+            st.sum_px, st.sum_pxx, st.n = buf_x[:, :, j].T, buf_xx[:, :, j].T, buf_n[:, j]
+        elif lay == "strided":
+            big = np.zeros((2 * c, 2 * d))
+            big[::2, ::2] = st.sum_px
+            st.sum_px = big[::2, ::2]
         st.t = sd["t"]
         st.log_likelihood = sd["ll"]
         out.append(st)
@@ -293,6 +316,10 @@ def _ident(x):
     return x
 
 
+def _true(x):
+    return True
+
+
 def _gen_part(part):
     for x in part:
         yield x
@@ -303,6 +330,26 @@ def _bag(case, stats):
     form = case.get("bagform", "plain")
     if form == "mapped":
         return b.map(_ident)
+    if form == "filtered":
+        return b.filter(_true)
+    if form == "repartitioned":
+        return b.repartition(npartitions=max(1, b.npartitions - 1)) if b.npartitions > 1 else b
+    if form == "from_delayed":
+        lay = case["layout"]
+        if lay["type"] == "explicit":
+            sizes = [sz for sz in lay["parts"]]
+        else:
+            k = lay["npartitions"]
+            base_, extra = divmod(len(stats), k)
+            sizes = [base_ + (1 if i < extra else 0) for i in range(k)]
+            sizes = [sz for sz in sizes if sz > 0] or [0]
+        parts, i = [], 0
+        for sz in sizes:
+            parts.append(dask.delayed(list)(list(stats[i:i + sz])))
+            i += sz
+        if i < len(stats):
+            parts.append(dask.delayed(list)(list(stats[i:])))
+        return db.from_delayed(parts)
     if form == "generator":
         return b.map_partitions(_gen_part)
     if form == "concat_mapped":
@@ -412,6 +459,7 @@ def run_case(case, replay=None):
     rec.probe("unsorted_labels", case["y"] != sorted(case["y"]))
     rec.probe("zero_occupancy_statistics", any(not any(st["n"]) for st in case["stats"]))
     rec.probe("lazy_iterator_partitions", case.get("bagform") in ("concat_mapped", "generator"))
+    rec.probe("statistics_with_non_contiguous_arrays", case.get("stats_layout") is not None)
     rec.probe("mode_" + case["sched"]["mode"])
     rec.probe("fault_free_configuration", bool(case.get("fault_free")))
     rec.probe("machine_used_before_" + str(case.get("pre")), case.get("pre") is not None)
